@@ -31,12 +31,30 @@ type solverSpec struct {
 	prep func(q string) string
 }
 
+// solverSeed (VERIF_SEED, or the stability tool) is handed to every solver as its random seed: 0 = the solvers' defaults.
+var solverSeed int
+
+func z3Seed() []string {
+	if solverSeed == 0 {
+		return nil
+	}
+	return []string{fmt.Sprintf("smt.random_seed=%d", solverSeed), fmt.Sprintf("sat.random_seed=%d", solverSeed)}
+}
+
 var solvers = []solverSpec{
-	{"z3-5.1.0", func(f string, t int) []string { return []string{"z3-new", "-smt2", fmt.Sprintf("-t:%d", t), f} }, func(q string) string { return q }},
+	{"z3-5.1.0", func(f string, t int) []string {
+		return append(append([]string{"z3-new", "-smt2", fmt.Sprintf("-t:%d", t)}, z3Seed()...), f)
+	}, func(q string) string { return q }},
 	{"cvc5-1.0.3", func(f string, t int) []string {
-		return []string{"cvc5", "--lang=smt2", fmt.Sprintf("--tlimit=%d", t), "--full-saturate-quant", f}
+		a := []string{"cvc5", "--lang=smt2", fmt.Sprintf("--tlimit=%d", t), "--full-saturate-quant"}
+		if solverSeed != 0 {
+			a = append(a, fmt.Sprintf("--seed=%d", solverSeed))
+		}
+		return append(a, f)
 	}, func(q string) string { return "(set-logic ALL)\n" + q }},
-	{"z3-4.8.12", func(f string, t int) []string { return []string{"z3", "-smt2", fmt.Sprintf("-t:%d", t), f} }, func(q string) string { return q }},
+	{"z3-4.8.12", func(f string, t int) []string {
+		return append(append([]string{"z3", "-smt2", fmt.Sprintf("-t:%d", t)}, z3Seed()...), f)
+	}, func(q string) string { return q }},
 }
 
 var tmpDir string
